@@ -360,7 +360,7 @@ func genC19(seed, index uint64, tier string) *Plan {
 		if scheme == "http" {
 			other = "https"
 		}
-		switch g.N(15) {
+		switch g.N(17) {
 		case 0:
 			r.Variant, r.ChartURL = "relative", "charts"+file
 		case 1:
@@ -399,6 +399,11 @@ func genC19(seed, index uint64, tier string) *Plan {
 			r.Variant, r.ChartURL = "scheme-relative-foreign", "//evil.example.net"+file
 		case 14:
 			r.Variant, r.ChartURL = "scheme-relative-other-port", "//"+host+":9443"+file
+		case 15:
+			// host names are case-insensitive: a foreign host stays foreign however it is spelled
+			r.Variant, r.ChartURL = "abs-unrelated-mixed-case", scheme+"://EVIL.Example.NET"+file
+		case 16:
+			r.Variant, r.ChartURL = "abs-sibling-mixed-case", scheme+"://Mirror.Example.COM"+path+file
 		}
 		if g.Chance(0.25) {
 			switch g.N(4) {
